@@ -73,7 +73,7 @@ func specs() []*spec {
 			ID: "C06", Harness: "trackersim", Level: "exploration",
 			Parts: []part{{Harness: "trackersim", Share: 0.7, Batch: 200}, {Harness: "clustersim", Share: 0.3, Batch: 20}},
 			Batch: 200, QuickSecs: 35, ThoroughSecs: 600, PlanTimeoutS: 30,
-			RequiredProbes: []string{"filters_checked", "quiescent_checks", "release_err", "global_status_checked", "global_listing_checked", "unreachable_allocated_peer"},
+			RequiredProbes: []string{"filters_checked", "quiescent_checks", "release_err", "global_status_checked", "global_listing_checked", "unreachable_allocated_peer", "allocated_peer_left_peerset"},
 			Rule:           "same plans as C05; at every quiescent instant Status(cid) and StatusAll are compared by class with each other and with the facts (pinset entry, daemon content, last outcome), and 19 filters (every single status, the two composites, 5 unions) are checked against the filter law. Non-trivial = >=1 client operation and >=1 fired fault; distinct = distinct canonical trace digest.",
 			Real:           trackerReal, Model: trackerModel,
 			Assumptions: []string{
@@ -107,7 +107,7 @@ func specs() []*spec {
 		{
 			ID: "C04", Harness: "clustersim", Level: "exploration",
 			Batch: 40, QuickSecs: 30, ThoroughSecs: 600, PlanTimeoutS: 20,
-			RequiredProbes: []string{"refusals", "identical_repin", "updates", "meta_unpinned", "sharded_triple_seeded", "metadata_key_removed"},
+			RequiredProbes: []string{"refusals", "identical_repin", "updates", "meta_unpinned", "sharded_triple_seeded", "metadata_key_removed", "meta_requests_through_rpc_endpoint"},
 			Rule:           "plan = cluster defaults (factor pair, follower on/off), 1-5 healthy members, 2-5 CIDs, optional sharded triple, then 5-120 calls of Pin / PinPath / PinUpdate (option and direct) / Unpin / UnpinPath, a third of the pins and unpins through the peer's own Cluster.Pin / Cluster.Unpin RPC endpoints as the REST API does, with every option (name, mode, factors incl. invalid pairs and pairs with only one factor given, expiry past/future with the clock moved between calls, metadata keys added/removed/changed, origins, user allocations, update source), plus re-pins derived from the stored entry (identical, key removed, key added, value changed). After every call the whole pinset is compared with an executable reference model of the statement. Non-trivial = >=1 call; distinct = distinct canonical trace digest.",
 			Real:           []string{"ipfscluster.Cluster (Pin, PinPath, PinUpdate, Unpin, UnpinPath, pin, setupPin, checkPinType, unpinClusterDag, cidsFromMetaPin)", "api.PinOptions.Equals, api.PinWithOpts", "state/dsstate + protobuf pin codec", "real allocator"},
 			Model:          []string{"consensus (single-copy pinset)", "monitor (all members healthy)", "IPFS connector (Resolve table, BlockGet of the cluster-DAG block)", "reference model of the statement (map CID -> pin + refusal rules)"},
@@ -135,7 +135,7 @@ func specs() []*spec {
 			ID: "C01", Harness: "raftsim", Level: "exploration",
 			Batch: 1, QuickSecs: 60, ThoroughSecs: 900, PlanTimeoutS: 90, // one process per plan on the heavy stack: a plan runs exactly as its replay would
 			DetSamples: 10, DetThreshold: 0.9,
-			RequiredProbes: []string{"observations", "acknowledged_ops", "replica_restored_from_snapshot", "leader_killed", "killed_with_call_in_flight", "leader_isolated", "offline_state_read", "tracker_handoffs_checked", "stopped_while_clients_write", "kill", "restart", "stop", "partition"},
+			RequiredProbes: []string{"observations", "acknowledged_ops", "replica_restored_from_snapshot", "leader_killed", "killed_with_call_in_flight", "leader_isolated", "offline_state_read", "tracker_handoffs_checked", "stopped_while_clients_write", "stored_compared_with_submitted", "identical_pin_submitted_again", "kill", "restart", "stop", "partition"},
 			Rule:           "plan = 1-4 real Raft peers (heartbeat 50 ms-1 s, commit timeout, SnapshotThreshold 2-64, SnapshotInterval 0.3-30 s, TrailingLogs 0-32, CommitRetries 0-2, WaitForLeaderTimeout, link latency) + 8-90 steps: overlapping LogPin/LogUnpin at any member over 2-5 CIDs with pins drawn from the whole well-formed space (type, mode, factors, allocations, origins, metadata incl. empty key/value, expiry whole/sub-second, names, update and reference CIDs of both versions), partitions (incl. leader isolated), heals, connection resets, latency changes, stalls, kill (copy of the tmpfs data folder at that instant) + restart on the copy, graceful stop (+OfflineState) and start; then heal, 60 s liveness budget and a fresh write. Non-trivial = >=1 operation and >=1 fault fired; distinct = distinct canonical trace digest.",
 			Real:           []string{"consensus/raft (Consensus, raftWrapper, LogOp.ApplyTo, commit/redirectToLeader, OfflineState, snapshot on shutdown)", "state/dsstate + api pin codecs (protobuf stored form, msgpack log form)", "go-libp2p-raft (FSM, codec, transport)", "hashicorp/raft, raft-boltdb + BoltDB, file snapshot store on tmpfs", "go-libp2p-gorpc, libp2p basic host on mocknet"},
 			Model:          []string{"PinTracker RPC service (recording)", "recording datastore under dsstate (observes every applied write and snapshot restore in order)", "Consensus RPC service shim delegating to the real Consensus (leader redirect)"},
@@ -145,7 +145,7 @@ func specs() []*spec {
 			ID: "C02", Harness: "crdtsim", Level: "exploration",
 			Batch: 1, QuickSecs: 45, ThoroughSecs: 900, PlanTimeoutS: 60,
 			DetSamples: 10, DetThreshold: 0.9,
-			RequiredProbes: []string{"observations", "queue_full", "bursts", "local_order_checked", "convergence_checked", "age_limit_checked", "tracker_handoffs_checked", "datastore_write_failed", "partition", "untrusted_publisher_checked"},
+			RequiredProbes: []string{"observations", "queue_full", "bursts", "local_order_checked", "convergence_checked", "age_limit_checked", "pending_after_heal_checked", "tracker_handoffs_checked", "datastore_write_failed", "partition", "untrusted_publisher_checked"},
 			Rule:           "plan = 1-4 real CRDT replicas with ipfscluster.newPubSub routers (batching disabled | size-triggered 1-8 | age-triggered 50 ms-5 s, queue 1-64, rebroadcast 1-30 s, trust-all | explicit lists | one untrusted replica, single-writer or contended CIDs) + 8-100 steps: LogPin/LogUnpin (every second one with a request context that ends as soon as the call returned), bursts of 2-10 operations in one instant mixing pin and unpin of the same CID (same batch window, queue overflow), partitions, heals, resets, latency skews, datastore write failures placed in the middle of a batch (skip k writes, fail n), Trust/Distrust; then everything is healed and left quiet for 2 x rebroadcast + 30 s. Non-trivial = >=1 operation and >=1 fault fired; distinct = distinct canonical trace digest.",
 			Real:           []string{"consensus/crdt (Consensus: LogPin/LogUnpin, batchWorker, hooks, topic validator, Trust/Distrust)", "state/dsstate (plain and batching)", "go-ds-crdt", "ipfs-lite + bitswap", "go-libp2p-pubsub gossipsub (signed, strict verification)", "go-libp2p-kad-dht dual DHT", "gorpc, libp2p basic host on mocknet"},
 			Model:          []string{"PinTracker and PeerMonitor RPC services (recording)", "fault-injecting in-memory datastore"},
@@ -154,7 +154,7 @@ func specs() []*spec {
 		{
 			ID: "C13", Harness: "addersim", Level: "exploration",
 			Batch: 20, QuickSecs: 40, ThoroughSecs: 900, PlanTimeoutS: 60,
-			RequiredProbes: []string{"adds_succeeded", "adds_failed", "content_read_back", "single_pin_checked", "sharded_pins_checked", "importer_reference_checked", "tree_reference_checked", "indirect_shard_dag", "blockput_ipfs_error", "destination_partitioned", "cluster_pin_failed", "block_allocate_failed"},
+			RequiredProbes: []string{"adds_succeeded", "adds_failed", "content_read_back", "single_pin_checked", "sharded_pins_checked", "importer_reference_checked", "tree_reference_checked", "default_factors_resolved", "indirect_shard_dag", "blockput_ipfs_error", "destination_partitioned", "cluster_pin_failed", "block_allocate_failed"},
 			Rule:           "plan = one add of a generated file tree (empty files, sizes at chunk-1/chunk/chunk+1/multiples, nested and wide directories, hidden entries, occasionally > 5984 blocks in one shard) with generated import parameters (size-N and rabin chunkers, balanced|trickle, raw leaves, CID version, sha2-256|sha2-512|blake2b-256, wrap, hidden, local, factor pair, sharding with shard sizes from 3 blocks to everything) on 1-4 destination peers, with faults: BlockPut fails at block k on destination d as an IPFS error, or the link to d is cut at block k (RPC error), the same block fails everywhere, the k-th BlockAllocate or Cluster.Pin fails. In fault-free plans every block must also sit on every peer of the allocation its pin (or its shard) names. Non-trivial = the add ran and >=1 fault fired; distinct = distinct canonical trace digest.",
 			Real:           []string{"adder (Adder.FromFiles, format selection, wrap, Finalize)", "adder/ipfsadd (importer pipeline over MFS)", "adder/single and adder/sharding DAG services (ingestBlock, flushCurrentShard, shard.Flush, makeDAG)", "adder.BlockAdder multi-destination put via gorpc MultiCall over libp2p basic hosts on mocknet", "go-unixfs importer / reader, go-merkledag, go-ipld-cbor (reference and read-back)"},
 			Model:          []string{"Cluster.BlockAllocate / Cluster.Pin RPC service (recording, can fail)", "IPFSConnector.BlockPut RPC service per destination (per-destination block stores, per-(block,destination) fault)"},
@@ -165,7 +165,7 @@ func specs() []*spec {
 			Parts: []part{{Harness: "clustersim", Share: 0.6, Batch: 1}, {Harness: "crdtsim", Share: 0.4, Batch: 1}},
 			Batch: 1, QuickSecs: 50, ThoroughSecs: 600, PlanTimeoutS: 120,
 			DetSamples: 8, DetThreshold: 0.9,
-			RequiredProbes: []string{"walks", "refusals", "allowed_calls", "trust_changes", "endpoints_found", "untrusted_publisher_checked"},
+			RequiredProbes: []string{"walks", "refusals", "allowed_calls", "trust_changes", "endpoints_found", "untrusted_publisher_checked", "add_peer_calls", "concurrent_trust_changes"},
 			Rule:           "part 1 (clustersim): a real Cluster with a real Raft or CRDT consensus component (trust config: Raft | CRDT explicit list | empty list | trust-all, loaded through the JSON section or through defaults + CLUSTER_CRDT_TRUSTEDPEERS; tracing on or off) is called over libp2p by real gorpc clients; every RPC endpoint found by reflection over the five service types x {self, peer1, peer2} is called in a plan-chosen order (a complete walk of the table, repeated after plan-chosen Trust/Distrust calls) and each outcome is compared with what the statement dictates (untrusted: only identity, version and the join handshake; local-only endpoints refused to every remote caller; self never refused; refused means no effect on tracker, IPFS, blocks or pinset). part 2 (crdtsim): 2-4 CRDT replicas whose pubsub routers come from ipfscluster.newPubSub; one of them, which nobody trusts, publishes pins and unpins under partitions and latency skews, in a third of the plans without signatures and naming a trusted replica as author; its updates must never show up at a replica that never trusted it. Non-trivial = >=1 call; distinct = distinct canonical trace digest.",
 			Real:           []string{"ipfscluster.Cluster RPC server, authorisation function and default RPC policy", "consensus/raft and consensus/crdt IsTrustedPeer/Trust/Distrust, crdt pubsub topic validator", "go-libp2p-gorpc client/server over libp2p basic hosts on mocknet", "go-libp2p-pubsub (signed), go-ds-crdt"},
 			Model:          []string{"tracker, IPFS connector, monitor, informer behind the target (recording)", "specification table of peer-to-peer vs local-only endpoints written from the statement (harness/clustersim/c07.go)"},
@@ -195,7 +195,7 @@ func specs() []*spec {
 			ID: "C14", Harness: "raftsim", Level: "exploration",
 			Batch: 8, QuickSecs: 45, ThoroughSecs: 600, PlanTimeoutS: 120,
 			DetSamples: 8, DetThreshold: 0.9,
-			RequiredProbes: []string{"offline_state_checked", "exports", "started_on_import", "import_over_existing_state", "rotations_checked", "peerstore_round_trips", "malformed_peerstore_lines"},
+			RequiredProbes: []string{"offline_state_checked", "exports", "started_on_import", "import_over_existing_state", "rotations_checked", "peerstore_round_trips", "malformed_peerstore_lines", "state_dump_round_trips", "peerstore_without_final_newline"},
 			Rule:           "plan = a pinset built by 1-12 generated LogPin/LogUnpin calls on a real single-peer Raft (all pin fields except origins), graceful stop (snapshot on shutdown), OfflineState, JSON export through the real StateManager, import into another base directory that may already hold a different pinset, a peer started on the imported snapshot; then 1-5 CleanupRaft calls with backups_rotate 1-6, pre-existing backups (a contiguous run, or any set with holes and folders beyond the retention) and 0-2 further writes before each; the import target is empty, a cleanly stopped peer or what a killed peer leaves (log entries, no shutdown snapshot); then a peerstore save/load round trip (in half of the plans over a longer file saved earlier) with 1-5 peers (ip and dns addresses, several per peer, priority order) and malformed lines mixed into the file. Non-trivial = >=1 operation; distinct = distinct canonical trace digest.",
 			Real:           []string{"cmdutils StateManager (exportState/importState)", "consensus/raft SnapshotSave, OfflineState, LastStateRaw, CleanupRaft, dataBackupHelper, snapshot on shutdown", "state/dsstate Marshal/Unmarshal, api pin codecs (protobuf, JSON)", "pstoremgr SavePeerstore/LoadPeerstore/ImportPeers/PeerInfos", "hashicorp/raft + BoltDB + file snapshot store on tmpfs"},
 			Model:          []string{"directory model of raft / raft.old.N", "reference pinset (fold of the applied writes)"},
